@@ -52,7 +52,7 @@ func fatAllScens(oracle string, quick bool, depth int) []*fatScen {
 	if hd > 3 {
 		hd = 3
 	}
-	out = append(out, fatHighClusterScenario(oracle, hd))
+	out = append(out, fatHighClusterScenario(oracle, hd), fatNearMaxScenario(oracle, hd))
 	for _, c := range []fatCfg{{Type: 12, Size: 4<<20 + 512, Start: 512}, {Type: 16, Size: 4400 << 10, Start: 0}, {Type: 32, Size: 1 << 20, Start: 1 << 20}} {
 		out = append(out, fatBigChainScenario(c, oracle, hd))
 	}
